@@ -5,7 +5,9 @@
      bit 2 (4): the input lies in a known-finding class for this property
    Imports Model/, Spec/ and Generated/ only (no proofs), so it still builds when a proof breaks. *)
 From Verif Require Export Base.Bytes.
-From Verif Require Import Base.Hex Model.Uri Spec.PathSpec.
+From Verif Require Import Base.Hex Base.Utf8 Crypto.Sha256 Crypto.Hmac Time.Calendar Time.Iso8601 Time.Render.
+From Verif Require Import Generated.SrcConsts Model.Errors Model.Uri Model.Query Model.Headers Model.Labels
+  Model.Requirements Model.SigningKey Model.Validate Spec.PathSpec Spec.QuerySpec Spec.Signer.
 From Coq Require Import Strings.Byte.
 Local Open Scope N_scope.
 
@@ -31,9 +33,346 @@ Inductive obs (A : Type) := Res (a : A) | Panic.
 Arguments Res {A} a.
 Arguments Panic {A}.
 
+
+(* ------------------------------------------------------------------------------------------ *)
+(* validation cases *)
+
+Inductive err_spec := ESig (k : N) | EForeign.
+Definition kind_of_id (n : N) : kind := nth (N.to_nat n) all_kinds SignatureDoesNotMatch.
+Definition box_of (e : err_spec) : boxed_error :=
+  match e with ESig k => BoxSig (kind_of_id k) | EForeign => BoxForeign end.
+
+Definition mk_request m p q u v hs b d : request :=
+  {| rq_method := m; rq_path := p; rq_query := q; rq_uri := u; rq_version := v; rq_headers := hs;
+     rq_body := b; rq_decoded := d |}.
+
+Definition mk_config rg sv now al ir px s3 fold : config :=
+  {| cf_region := rg; cf_service := sv; cf_now := now;
+     cf_reqs := {| always_present := al; if_in_request := ir; prefixes := px |};
+     cf_s3 := s3; cf_fold := fold |}.
+
+Record prov_spec := mk_prov {
+  ps_rp : nat; ps_re : option err_spec; ps_cp : nat;
+  ps_table : list (bytes * option bytes * bytes * N);
+  ps_fail : option err_spec
+}.
+
+(* the harness provider: SigV4 key derivation from a secret table, written independently of
+   Model/SigningKey.v *)
+Definition derive_key (secret : bytes) (date : Z * Z * Z) (region service : bytes) : bytes :=
+  let '(y, m, d) := date in
+  let ymd := dec_fixed 4 (Z.to_N y) ++ dec_fixed 2 (Z.to_N m) ++ dec_fixed 2 (Z.to_N d) in
+  hmac sha256 (hmac sha256 (hmac sha256 (hmac sha256 (s2b "AWS4" ++ secret) ymd) region) service)
+       (s2b "aws4_request").
+
+Definition table_find (ps : prov_spec) (ak : bytes) (tok : option bytes) :=
+  find (fun e => let '(a, t, _, _) := e in bytes_eqb a ak && opt_bytes_eqb t tok) (ps_table ps).
+
+Definition provider_answer (ps : prov_spec) (rq : gsk_request) : gsk_answer :=
+  match ps_fail ps with
+  | Some e => AnsErr (box_of e)
+  | None =>
+      match table_find ps (g_access_key rq) (g_token rq) with
+      | None => AnsErr (BoxSig InvalidClientTokenId)
+      | Some (_, _, secret, idx) =>
+          AnsOk (derive_key secret (g_date rq) (g_region rq) (g_service rq))
+                ("u"%byte :: dec idx) ("s"%byte :: dec idx)
+      end
+  end.
+
+Definition provider_of (ps : prov_spec) : provider :=
+  {| pv_ready_pending := ps_rp ps; pv_ready := option_map box_of (ps_re ps);
+     pv_call_pending := ps_cp ps; pv_answer := provider_answer ps |}.
+
+Inductive oout :=
+| OAccepted (m u : bytes) (v : N) (hs : list (bytes * bytes)) (body principal session : bytes)
+| ORefused (k : N) (code : bytes) (status : N)
+| OOther
+| OPanic.
+
+Record call := mk_call { c_ak : bytes; c_tok : option bytes; c_y : Z; c_m : Z; c_d : Z; c_rg : bytes; c_sv : bytes }.
+Record observation := mk_obs {
+  ob_out : oout; ob_calls : list call; ob_cbr : bool; ob_creq : option bytes; ob_sts : option bytes
+}.
+Record expect := mk_expect {
+  x_accept : bool; x_refuse : bool; x_kind : option N; x_calls : option N; x_ts : option Z
+}.
+
+Definition call_eqb (c : call) (g : gsk_request) : bool :=
+  let '(y, m, d) := g_date g in
+  bytes_eqb (c_ak c) (g_access_key g) && opt_bytes_eqb (c_tok c) (g_token g)
+  && Z.eqb (c_y c) y && Z.eqb (c_m c) m && Z.eqb (c_d c) d
+  && bytes_eqb (c_rg c) (g_region g) && bytes_eqb (c_sv c) (g_service g).
+
+Fixpoint list_eqb {A B} (f : A -> B -> bool) (a : list A) (b : list B) : bool :=
+  match a, b with
+  | [], [] => true
+  | x :: a', y :: b' => f x y && list_eqb f a' b'
+  | _, _ => false
+  end.
+
+Definition header_names (hs : list (bytes * bytes)) : list bytes := map (fun nv => lower (fst nv)) hs.
+
+(* same names, values, multiplicity and per-name order *)
+Definition headers_equiv (a b : list (bytes * bytes)) : bool :=
+  forallb (fun n => list_eqb bytes_eqb (values_of n a) (values_of n b)) (header_names a ++ header_names b).
+
+Definition is_accepted (o : oout) : bool := match o with OAccepted _ _ _ _ _ _ _ => true | _ => false end.
+
+Definition in_list (n : N) (l : list N) : bool := existsb (N.eqb n) l.
+
+(* which observations the property's theorems depend on *)
+Definition proj_calls (pid : N) : bool := in_list pid [3; 14].
+Definition proj_parts (pid : N) : bool := in_list pid [12; 15].
+Definition proj_creq (pid : N) : bool := in_list pid [1; 2; 10; 11; 12; 16; 19].
+
+Definition model_creq_sts (rq : request) (cf : config) : option bytes * option bytes :=
+  match from_request_parts sha256 rq cf with
+  | Ok (cr, _, _) =>
+      match get_auth_parameters cr (cf_reqs cf) with
+      | Ok ap =>
+          (Some (canonical_request cr (ap_signed ap)),
+           match get_authenticator sha256 cr (cf_reqs cf) with
+           | Ok au =>
+               match prevalidate au (cf_region cf) (cf_service cf) (cf_now cf) allowed_mismatch_ns with
+               | Ok _ => match string_to_sign au with Ok s => Some s | _ => None end
+               | _ => None
+               end
+           | _ => None
+           end)
+      | _ => (None, None)
+      end
+  | _ => (None, None)
+  end.
+
+Definition model_differs (pid : N) (rq : request) (cf : config) (ps : prov_spec) (ob : observation) : bool :=
+  let '(calls, out) := validate sha256 rq cf (provider_of ps) in
+  let out_bad :=
+    match out, ob_out ob with
+    | Accepted p body pr se, OAccepted m u v hs b pr' se' =>
+        proj_parts pid &&
+        negb (bytes_eqb (pt_method p) m && bytes_eqb (pt_uri p) u && N.eqb (pt_version p) v
+              && headers_equiv (pt_headers p) hs && bytes_eqb body b && bytes_eqb pr pr' && bytes_eqb se se')
+    | Refused k, ORefused k' _ _ => negb (N.eqb (kind_id k) k')
+    | Panicked _, OPanic => false
+    | _, _ => true
+    end in
+  let calls_bad := proj_calls pid && negb (list_eqb call_eqb (ob_calls ob) calls) in
+  let creq_bad :=
+    proj_creq pid &&
+    (let '(c, s) := model_creq_sts rq cf in
+     negb (opt_bytes_eqb c (ob_creq ob) && opt_bytes_eqb s (ob_sts ob))) in
+  out_bad || calls_bad || creq_bad.
+
+(* ---- property-level predicates, evaluated on the implementation's observation ---- *)
+
+Definition xflags_ok (ob : observation) (x : expect) : bool :=
+  (negb (x_accept x) || is_accepted (ob_out ob))
+  && (negb (x_refuse x) || negb (is_accepted (ob_out ob)))
+  && (match x_kind x with
+      | Some k => match ob_out ob with ORefused k' _ _ => N.eqb k k' | _ => false end
+      | None => true
+      end)
+  && (match x_calls x with
+      | Some n => N.leb (N.of_nat (length (ob_calls ob))) n
+      | None => true
+      end).
+
+Definition form_type : bytes := s2b "application/x-www-form-urlencoded".
+
+(* is this request folded, by the property's wording *)
+Definition spec_folded (rq : request) (cf : config) : bool :=
+  cf_fold cf &&
+  match content_type_charset (rq_headers rq) with
+  | Some (ct, _) => bytes_eqb ct form_type
+  | None => false
+  end.
+
+Definition spec_decoded_body (rq : request) : option bytes :=
+  match content_type_charset (rq_headers rq) with
+  | Some (_, Some cs) =>
+      match classify_label (flat_map latin1_char cs) with
+      | CsUtf8 => if utf8_valid (rq_body rq) then Some (rq_body rq) else None
+      | CsOther => rq_decoded rq
+      | CsUnknown => None
+      end
+  | _ => if utf8_valid (rq_body rq) then Some (rq_body rq) else None
+  end.
+
+(* all decoded parameters that enter the canonical query *)
+Definition spec_all_pairs (rq : request) (cf : config) : option (list (bytes * bytes)) :=
+  match decoded_pairs (match rq_query rq with Some q => q | None => [] end) with
+  | None => None
+  | Some up =>
+      if spec_folded rq cf then
+        match spec_decoded_body rq with
+        | None => None
+        | Some b => option_map (app up) (decoded_pairs b)
+        end
+      else Some up
+  end.
+
+(* the model's extraction of the presented authentication parameters (selection rules: C19) *)
+Definition presented (rq : request) (cf : config) : option auth_params :=
+  match from_request_parts sha256 rq cf with
+  | Ok (cr, _, _) => match get_auth_parameters cr (cf_reqs cf) with Ok ap => Some ap | _ => None end
+  | _ => None
+  end.
+
+(* C01: an accepted request carries hex(HMAC(key, spec string-to-sign)) *)
+Definition spec_signature_ok (rq : request) (cf : config) (ps : prov_spec) (ob : observation) : bool :=
+  match presented rq cf, ob_calls ob with
+  | Some ap, [c] =>
+      match parse_iso8601 (ap_timestamp ap), spec_path (cf_s3 cf) (rq_path rq), spec_all_pairs rq cf,
+            split_once "/"%byte (ap_credential ap) with
+      | Some ts, Some path, Some pairs, Some (_, scope) =>
+          let payload := if spec_folded rq cf then [] else rq_body rq in
+          let creq := spec_canonical_request sha256 (rq_method rq) path (spec_query_of_pairs pairs)
+                                             (rq_headers rq) (ap_signed ap) payload in
+          let sts := spec_string_to_sign sha256 (render_compact ts) scope creq in
+          match provider_answer ps {| g_access_key := c_ak c; g_token := c_tok c;
+                                      g_date := (c_y c, c_m c, c_d c); g_region := c_rg c;
+                                      g_service := c_sv c |} with
+          | AnsOk key _ _ => bytes_eqb (ap_signature ap) (lower_hex (hmac sha256 key sts))
+          | AnsErr _ => false
+          end
+      | _, _, _, _ => false
+      end
+  | _, _ => false
+  end.
+
+(* C03 *)
+Definition scope_ok (rq : request) (cf : config) (ob : observation) : bool :=
+  match presented rq cf with
+  | None => negb (is_accepted (ob_out ob)) && is_nil (ob_calls ob)
+  | Some ap =>
+      let parts := split_on "/"%byte (ap_credential ap) in
+      let ts := parse_iso8601 (ap_timestamp ap) in
+      let call_ok (c : call) :=
+        match ts, parts with
+        | Some t, ak :: _ =>
+            let '(y, m, d) := civil_of_days (day_of_instant t) in
+            bytes_eqb (c_ak c) ak && opt_bytes_eqb (c_tok c) (ap_token ap)
+            && Z.eqb (c_y c) y && Z.eqb (c_m c) m && Z.eqb (c_d c) d
+            && bytes_eqb (c_rg c) (cf_region cf) && bytes_eqb (c_sv c) (cf_service cf)
+        | _, _ => false
+        end in
+      forallb call_ok (ob_calls ob)
+      && (negb (is_accepted (ob_out ob)) ||
+          match ts, parts with
+          | Some t, [_; d; r; s; term] =>
+              bytes_eqb r (cf_region cf) && bytes_eqb s (cf_service cf)
+              && bytes_eqb term (s2b "aws4_request") && bytes_eqb d (yyyymmdd t)
+          | _, _ => false
+          end)
+  end.
+
+(* C05: set semantics of the requirement declaration *)
+Definition requirements_ok (rq : request) (cf : config) : bool :=
+  match presented rq cf with
+  | None => false
+  | Some ap =>
+      let signed := ap_signed ap in
+      let names := header_names (rq_headers rq) in
+      (mem_bytes (s2b "host") signed || mem_bytes (s2b ":authority") signed)
+      && forallb (fun a => mem_bytes (lower a) signed) (always_present (cf_reqs cf))
+      && forallb (fun c => negb (mem_bytes (lower c) names) || mem_bytes (lower c) signed) (if_in_request (cf_reqs cf))
+      && forallb (fun p => forallb (fun n => negb (starts_with (lower p) n) || mem_bytes n signed) names)
+                 (prefixes (cf_reqs cf))
+  end.
+
+(* C15 / C12 *)
+Definition uri_query (u : bytes) : bytes :=
+  match split_once "?"%byte u with Some (_, q) => q | None => [] end.
+
+Definition encoded_sorted (ps : list (bytes * bytes)) : list (bytes * bytes) :=
+  spec_sort (map (fun kv => (pct_encode (fst kv), pct_encode (snd kv)))
+                 (filter (fun kv => negb (bytes_eqb (fst kv) x_amz_signature)) ps)).
+
+Definition pair_eqb (a b : bytes * bytes) : bool := bytes_eqb (fst a) (fst b) && bytes_eqb (snd a) (snd b).
+
+Definition passthrough_ok (rq : request) (cf : config) (ps : prov_spec) (ob : observation) : bool :=
+  match ob_out ob with
+  | OAccepted m u v hs b pr se =>
+      bytes_eqb m (rq_method rq) && N.eqb v (rq_version rq) && headers_equiv hs (rq_headers rq)
+      && (if spec_folded rq cf then
+            is_nil b &&
+            match spec_all_pairs rq cf, decoded_pairs (uri_query u) with
+            | Some ps1, Some ps2 => list_eqb pair_eqb (encoded_sorted ps1) (encoded_sorted ps2)
+            | _, _ => false
+            end
+          else bytes_eqb b (rq_body rq) && bytes_eqb u (rq_uri rq))
+      && match ob_calls ob with
+         | [c] => match table_find ps (c_ak c) (c_tok c) with
+                  | Some (_, _, _, idx) => bytes_eqb pr ("u"%byte :: dec idx) && bytes_eqb se ("s"%byte :: dec idx)
+                  | None => false
+                  end
+         | _ => false
+         end
+  | _ => true
+  end.
+
+(* C13 *)
+Definition taxonomy_ok (ob : observation) : bool :=
+  match ob_out ob with
+  | ORefused k c st =>
+      let kd := kind_of_id k in
+      N.ltb k 12
+      && match code kd with Some c' => bytes_eqb c c' | None => false end
+      && match status kd with Some s' => N.eqb st s' | None => false end
+      && in_list st [400; 403; 500]
+  | OOther => false
+  | _ => true
+  end.
+
+(* C14 *)
+Definition provider_protocol_ok (ps : prov_spec) (ob : observation) : bool :=
+  N.leb (N.of_nat (length (ob_calls ob))) 1 && negb (ob_cbr ob)
+  && (match ps_re ps with Some _ => negb (is_accepted (ob_out ob)) && is_nil (ob_calls ob) | None => true end)
+  && (match ps_fail ps with Some _ => negb (is_accepted (ob_out ob)) | None => true end)
+  && (match ps_re ps, ps_fail ps, ob_calls ob with
+      | Some e, _, _ | None, Some e, [_] =>
+          (* the provider's error comes back unchanged / as InternalServiceError *)
+          match ob_out ob with ORefused k _ _ => N.eqb k (kind_id (from_box (box_of e))) | _ => false end
+      | _, _, _ => true
+      end).
+
+(* C16: the timestamp line of the string-to-sign and the date demanded from the provider *)
+Definition second_line (s : bytes) : bytes :=
+  match split_on x0a s with _ :: l :: _ => l | _ => [] end.
+
+Definition timestamp_ok (ob : observation) (x : expect) : bool :=
+  match x_ts x with
+  | None => true
+  | Some t =>
+      (match ob_sts ob with Some s => bytes_eqb (second_line s) (render_compact t) | None => true end)
+      && forallb (fun c => let '(y, m, d) := civil_of_days (day_of_instant t) in
+                           Z.eqb (c_y c) y && Z.eqb (c_m c) m && Z.eqb (c_d c) d) (ob_calls ob)
+  end.
+
+Definition not_panic (ob : observation) : bool := match ob_out ob with OPanic => false | _ => true end.
+
+Definition prop_ok (pid : N) (rq : request) (cf : config) (ps : prov_spec) (ob : observation) (x : expect) : bool :=
+  xflags_ok ob x &&
+  (if N.eqb pid 1 then negb (is_accepted (ob_out ob)) || spec_signature_ok rq cf ps ob
+   else if N.eqb pid 3 then scope_ok rq cf ob
+   else if N.eqb pid 5 then negb (is_accepted (ob_out ob)) || requirements_ok rq cf
+   else if N.eqb pid 8 then not_panic ob
+   else if N.eqb pid 12 then passthrough_ok rq cf ps ob
+   else if N.eqb pid 13 then taxonomy_ok ob
+   else if N.eqb pid 14 then provider_protocol_ok ps ob
+   else if N.eqb pid 15 then passthrough_ok rq cf ps ob
+   else if N.eqb pid 16 then timestamp_ok ob x
+   else true).
+
+(* known-finding classes *)
+Definition class_of (pid : N) (rq : request) : N :=
+  if in_list pid [1; 2] && has_plus (rq_path rq) then 1 else 0.
+
 Inductive case :=
   (* canonicalize_uri_path s3 p = r ; rr = the implementation applied to its own output *)
-| PathCase (s3 : bool) (p : bytes) (r : obs (option bytes)) (rr : option bytes).
+| PathCase (s3 : bool) (p : bytes) (r : obs (option bytes)) (rr : option bytes)
+| ValidateCase (pid : N) (rq : request) (cf : config) (ps : prov_spec) (ob : observation) (x : expect).
 
 Definition run_case (c : case) : N :=
   match c with
@@ -47,14 +386,18 @@ Definition run_case (c : case) : N :=
           let idem_bad := match r with Some c => negb (opt_bytes_eqb rr (Some c)) | None => false end in
           flag model_bad 1 + flag (spec_bad || idem_bad) 2 + flag (has_plus p) 4
       end
+  | ValidateCase pid rq cf ps ob x =>
+      flag (model_differs pid rq cf ps ob) 1 + flag (negb (prop_ok pid rq cf ps ob x)) 2
+      + 4 * class_of pid rq
   end.
 
-Fixpoint report_from (i : N) (cs : list case) : list (N * N) :=
+(* one number per disagreeing case: 1024 * index + flags (atomic tokens survive Coq's line wrapping) *)
+Fixpoint report_from (i : N) (cs : list case) : list N :=
   match cs with
   | [] => []
   | c :: r =>
       let f := run_case c in
-      if N.eqb f 0 then report_from (i + 1) r else (i, f) :: report_from (i + 1) r
+      if N.eqb f 0 then report_from (i + 1) r else (1024 * i + f) :: report_from (i + 1) r
   end.
 
-Definition report (cs : list case) : list (N * N) := report_from 0 cs.
+Definition report (cs : list case) : list N := report_from 0 cs.
